@@ -297,6 +297,18 @@ func (c *Cluster) RestartNode(ip string) {
 	}
 }
 
+// PrepareDirect registers a statement as prepared on every node without any PREPARE frame (a statement that was
+// prepared by another client, or before the proxy started); returns its id.
+func (c *Cluster) PrepareDirect(keyspace, query string) []byte {
+	id := PreparedID(keyspace, query)
+	for _, n := range c.Nodes() {
+		n.mu.Lock()
+		n.prepared[hex.EncodeToString(id)] = prepared{Query: query, Keyspace: keyspace}
+		n.mu.Unlock()
+	}
+	return id
+}
+
 // ForgetPrepared clears the prepared statements of a node without touching its connections.
 func (c *Cluster) ForgetPrepared(ip string) {
 	if n := c.Node(ip); n != nil {
